@@ -35,7 +35,8 @@ pub proof fn lemma_first_empty_push(s: Seq<Msg>, m: Msg)
 }
 """
 
-SETF = [("R6", "frames[0].set_flags(current_flags | MsgFlags::MORE);", "frames.verif_set_flags(0, current_flags | MsgFlags::MORE);", 1)]
+# R6: `batch[i].set_flags(f)` (IndexMut on a user type is outside Verus' subset) -- any occurrence, any index expression
+SETF = [("R6", re.compile(r"(\w+)\[([^\]]+)\]\.set_flags\(([^;]*)\);"), r"\1.verif_set_flags(\2, \3);", None)]
 
 parts = [
   Raw("prelude/core.rs"),
@@ -55,14 +56,14 @@ parts = [
      ],
      extra=SETF,
      ),
-  Fn(FG, "router_auto_decode",
+  Fn(FG, "router_auto_decode", extra=SETF,
      ensures=[("C11:removes_only_the_delimiter_slot", "old(frames)@.len() > 1 ==> final(frames)@ == old(frames)@.remove(1)"),
               ("C11:short_message_untouched", "old(frames)@.len() <= 1 ==> final(frames)@ == old(frames)@")]),
-  Fn(FG, "dealer_auto_encode",
+  Fn(FG, "dealer_auto_encode", extra=SETF,
      requires=["old(frames)@.len() < 255"],
      ensures=[("C11:delimiter_prepended", "final(frames)@.len() == old(frames)@.len() + 1 && empty_frame(final(frames)@[0]) && final(frames)@[0].flags.more == (old(frames)@.len() > 0)"),
               ("C11:payload_frames_unchanged", "final(frames)@.skip(1) == old(frames)@")]),
-  Fn(FG, "dealer_auto_decode",
+  Fn(FG, "dealer_auto_decode", extra=SETF,
      ensures=[("C11:strips_first_frame_only", "old(frames)@.len() > 0 ==> final(frames)@ == old(frames)@.skip(1)"),
               ("C11:empty_untouched", "old(frames)@.len() == 0 ==> final(frames)@ == old(frames)@")]),
   # REP: split [routing prefix up to and including the first empty frame | payload]; without an empty frame everything is payload
